@@ -187,7 +187,7 @@ class TaskAbort(BaseException):
     """a task leaving through a non-Exception BaseException (SystemExit-like)"""
 
 
-def replay(source, filename, universe, client_programs, steps, pool_args=None, timeout_literal=POOL_TIMEOUT):
+def replay(source, filename, universe, client_programs, steps, pool_args=None, timeout_literal=POOL_TIMEOUT, start_failures=None):
     """
     steps: [(tid, choice, [nodes])] from bmc.trim_schedule.
     Returns a dict of observations; raises ReplayMismatch if the real code does
@@ -195,7 +195,8 @@ def replay(source, filename, universe, client_programs, steps, pool_args=None, t
     """
     U = universe
     mod, path = load_module(source, filename)
-    fail_start = {"next": False}
+    # left: how many start attempts the model still lets fail (None: no limit) -- mirrors `start_failures_left`
+    fail_start = {"next": False, "left": start_failures}
 
     class FailingThread(threading.Thread):
         """threading.Thread whose start() fails on demand (model choice 'start failure')"""
@@ -309,8 +310,10 @@ def replay(source, filename, universe, client_programs, steps, pool_args=None, t
                         raise ReplayMismatch("thread {0} parked at {1}:{2}, model expects {3}:{4} ({5})".format(
                             tid, os.path.basename(here[0]), here[1], os.path.basename(str(want[0])), want[1], node.label))
                     baton.grant(tid)
-                if node.label == "Thread.start" and choice == 1:
+                if node.label == "Thread.start" and choice == 1 and (fail_start["left"] is None or fail_start["left"] > 0):
                     fail_start["next"] = True
+                    if fail_start["left"] is not None:
+                        fail_start["left"] -= 1
                 baton.grant(tid)
                 executed += 1
                 baton.log.append((tid, want[1], node.label))
